@@ -141,6 +141,7 @@ pub(crate) fn restore_repository<S: IndexedTree>(
         dest,
         &file_infos.names,
         file_infos.file_lengths,
+        &file_infos.file_existing,
         file_infos.r,
         file_infos.restore_size,
         opts.sparse.unwrap_or_default(),
@@ -606,6 +607,7 @@ fn restore_contents<S: Open>(
     dest: &LocalDestination,
     filenames: &Filenames,
     file_lengths: Vec<u64>,
+    file_existing: &[bool],
     restore_info: RestoreInfo,
     restore_size: u64,
     sparse: SparseRestore,
@@ -733,7 +735,9 @@ fn restore_contents<S: Open>(
                                     sizes_guard[file_idx] = 0;
                                 }
                                 drop(sizes_guard);
-                                if !is_sparse {
+                                // All-zero blobs can only be skipped in files which are created by
+                                // this restore: an already existing file holds other bytes there.
+                                if !is_sparse || file_existing[file_idx] {
                                     dest.write_at(path, start, &data).unwrap();
                                 }
                                 p.inc(size);
@@ -763,6 +767,8 @@ pub struct RestorePlan {
     names: Filenames,
     /// The length of the files to restore
     file_lengths: Vec<u64>,
+    /// Whether the files to restore already exist (with whatever content) in the destination
+    file_existing: Vec<bool>,
     /// The restore information
     r: RestoreInfo,
     /// candidates for hardlinks
@@ -872,6 +878,8 @@ impl RestorePlan {
             }
 
         let file_idx = self.names.len();
+        self.file_existing
+            .push(std::fs::symlink_metadata(dest.path(&name)).is_ok());
         self.names.push(name);
         let mut file_pos = 0;
         let mut has_unmatched = false;
